@@ -36,6 +36,10 @@ class ToMetaBase(FnSpec):
     def raises(self, cx, a):
         return {}
 
+    def native_plan(self, m, o):
+        ds = "dataset:" in o.get("name", "")
+        return {"fn": "to_meta_base_path", "args": [_path_of(m), ds]}
+
     def ensures(self, cx, a, res):
         t = res.t if isinstance(res, SStr) else (z3.StringVal(res) if isinstance(res, str) else None)
         if t is None:
@@ -45,6 +49,11 @@ class ToMetaBase(FnSpec):
             return [("dataset:prefix-on-the-last-segment", t == z3.Concat(d, PREF, x), "the metadata directory of a dataset sits next to it: <parent>/metador_meta_<name>")]
         root = z3.And(d == SL, x == z3.StringVal(""))
         return [("group:reserved-child-named-by-the-bare-prefix", t == z3.If(root, z3.Concat(SL, PREF), z3.Concat(d, x, SL, PREF)), "the metadata directory of a group is its child 'metador_meta_' (for the root group: '/metador_meta_', not '//metador_meta_')")]
+
+
+def _path_of(m):
+    d, x = m.get("parent_part"), m.get("last_segment")
+    return (d if isinstance(d, str) else "") + (x if isinstance(x, str) else "")
 
 
 class ToDataNode(FnSpec):
@@ -86,6 +95,14 @@ class ToDataNode(FnSpec):
     def raises(self, cx, a):
         return {}
 
+    def native_plan(self, m, o):
+        d, x, g = m.get("parent_part"), m.get("last_segment"), m.get("group_path_or_empty_for_root")
+        if isinstance(g, str):
+            return {"fn": "to_data_node_path", "args": [g + "/metador_meta_"], "expect": g if g else "/"}
+        if isinstance(d, str) and isinstance(x, str):
+            return {"fn": "to_data_node_path", "args": [d + "metador_meta_" + x], "expect": d + x}
+        return None
+
     def ensures(self, cx, a, res):
         t = res.t if isinstance(res, SStr) else (z3.StringVal(res) if isinstance(res, str) else None)
         return [("the-node-the-directory-belongs-to", z3.BoolVal(False) if t is None else t == a.want, "to_data_node_path(to_meta_base_path(p, is_dataset)) == p for every node path p — the dataset next to the directory, the group above it, '/' for the root")]
@@ -106,6 +123,9 @@ class IsMetaBase(FnSpec):
 
     def raises(self, cx, a):
         return {}
+
+    def native_plan(self, m, o):
+        return {"fn": "is_meta_base_path", "args": [_path_of(m)]}
 
     def ensures(self, cx, a, res):
         from .c16 import is_bool_eq
